@@ -229,11 +229,19 @@ fn concurrent(limit: usize, nthreads: usize, rounds: usize, ops_per_round: usize
     let a = Arc::new(Alloc::new(limit));
     let barrier = Arc::new(Barrier::new(nthreads + 1));
     let live_total = Arc::new(Mutex::new(vec![0usize; nthreads]));
+    // bytes granted and not yet handed back, counted by the harness itself: incremented after a grant returns,
+    // decremented before the block is handed back, so it never exceeds what the allocator has really granted;
+    // seeing it above the limit means the allocator admitted an operation beyond the limit (at any instant,
+    // not only at the quiescent points)
+    let live_now = Arc::new(std::sync::atomic::AtomicUsize::new(0));
+    let over = Arc::new(std::sync::atomic::AtomicUsize::new(0));
     let mut handles = vec![];
     for t in 0..nthreads {
         let a = a.clone();
         let barrier = barrier.clone();
         let live_total = live_total.clone();
+        let live_now = live_now.clone();
+        let over = over.clone();
         handles.push(std::thread::spawn(move || {
             let mut rng = Rng::new(seed.wrapping_add(t as u64 * 7919));
             let mut blocks: Vec<(usize, Layout)> = vec![];
@@ -246,18 +254,34 @@ fn concurrent(limit: usize, nthreads: usize, rounds: usize, ops_per_round: usize
                         0 | 1 => {
                             let l = Layout::from_size_align(sz, 1).unwrap();
                             let p = unsafe { if rng.chance(1, 2) { a.alloc(l) } else { a.alloc_zeroed(l) } };
-                            if !p.is_null() { blocks.push((p as usize, l)); }
+                            if !p.is_null() {
+                                let now = live_now.fetch_add(sz, std::sync::atomic::Ordering::SeqCst) + sz;
+                                if now > limit { over.fetch_max(now, std::sync::atomic::Ordering::SeqCst); }
+                                blocks.push((p as usize, l));
+                            }
                         }
                         2 if !blocks.is_empty() => {
                             let i = rng.below(blocks.len() as u64) as usize;
                             let (p, l) = blocks.swap_remove(i);
+                            live_now.fetch_sub(l.size(), std::sync::atomic::Ordering::SeqCst);
                             unsafe { a.dealloc(p as *mut u8, l) };
                         }
                         3 if !blocks.is_empty() => {
                             let i = rng.below(blocks.len() as u64) as usize;
                             let (p, l) = blocks.swap_remove(i);
+                            // a shrink is given back before the call, a growth is counted after it
+                            if sz < l.size() { live_now.fetch_sub(l.size() - sz, std::sync::atomic::Ordering::SeqCst); }
                             let q = unsafe { a.realloc(p as *mut u8, l, sz) };
-                            if q.is_null() { blocks.push((p, l)); } else { blocks.push((q as usize, Layout::from_size_align(sz, 1).unwrap())); }
+                            if q.is_null() {
+                                if sz < l.size() { live_now.fetch_add(l.size() - sz, std::sync::atomic::Ordering::SeqCst); }
+                                blocks.push((p, l));
+                            } else {
+                                if sz > l.size() {
+                                    let now = live_now.fetch_add(sz - l.size(), std::sync::atomic::Ordering::SeqCst) + (sz - l.size());
+                                    if now > limit { over.fetch_max(now, std::sync::atomic::Ordering::SeqCst); }
+                                }
+                                blocks.push((q as usize, Layout::from_size_align(sz, 1).unwrap()));
+                            }
                         }
                         _ => {}
                     }
@@ -266,7 +290,7 @@ fn concurrent(limit: usize, nthreads: usize, rounds: usize, ops_per_round: usize
                 barrier.wait(); // quiescent: main thread inspects
                 barrier.wait();
             }
-            for (p, l) in blocks { unsafe { a.dealloc(p as *mut u8, l) }; }
+            for (p, l) in blocks { live_now.fetch_sub(l.size(), std::sync::atomic::Ordering::SeqCst); unsafe { a.dealloc(p as *mut u8, l) }; }
             nops
         }));
     }
@@ -292,6 +316,10 @@ fn concurrent(limit: usize, nthreads: usize, rounds: usize, ops_per_round: usize
     }
     let mut total = 0;
     for h in handles { total += h.join().unwrap(); }
+    let worst = over.load(std::sync::atomic::Ordering::SeqCst);
+    if worst > limit {
+        viol.push(serde_json::json!({"property":"C19","what":format!("concurrent: {} bytes were granted at the same time, above the limit {} (threads={}, seed={})", worst, limit, nthreads, seed)}));
+    }
     a.reset_max();
     if a.get_max() != 0 {
         viol.push(serde_json::json!({"property":"C19","what":format!("concurrent: usage {} after freeing everything (threads={}, seed={})", a.get_max(), nthreads, seed)}));
@@ -368,6 +396,39 @@ pub fn run(o: &Opts) -> i32 {
             cops += concurrent(1 << 16, n, if o.thorough { 40 } else { 15 }, 400, o.seed * 1000 + r as u64 + n as u64 * 31, &mut cviol);
             cruns += 1;
         }
+    }
+    // 3b. contention at the limit: every thread asks for more than half of the limit in a tight loop, so two
+    //     grants can never be live together; the harness counts what is granted at the same time
+    for &n in thread_counts {
+        let limit = 100usize;
+        let a = Arc::new(Alloc::new(limit));
+        let live_now = Arc::new(std::sync::atomic::AtomicUsize::new(0));
+        let worst = Arc::new(std::sync::atomic::AtomicUsize::new(0));
+        let start = Arc::new(Barrier::new(n));
+        let iters = if o.thorough { 400_000 } else { 60_000 };
+        let hs: Vec<_> = (0..n).map(|t| { let (a, live_now, worst, start) = (a.clone(), live_now.clone(), worst.clone(), start.clone()); std::thread::spawn(move || {
+            use std::sync::atomic::Ordering::SeqCst;
+            let sizes = [60usize, 51, 100, 70];
+            start.wait();
+            for i in 0..iters {
+                let sz = sizes[(i + t) % sizes.len()];
+                let l = Layout::from_size_align(sz, 1).unwrap();
+                let p = unsafe { if i % 3 == 0 { a.alloc_zeroed(l) } else { a.alloc(l) } };
+                if !p.is_null() {
+                    let now = live_now.fetch_add(sz, SeqCst) + sz;
+                    if now > limit { worst.fetch_max(now, SeqCst); }
+                    std::hint::spin_loop();
+                    live_now.fetch_sub(sz, SeqCst);
+                    unsafe { a.dealloc(p, l) };
+                }
+            }
+        }) }).collect();
+        for h in hs { h.join().unwrap(); }
+        cops += (n * iters) as u64; cruns += 1;
+        let w = worst.load(std::sync::atomic::Ordering::SeqCst);
+        if w > limit { cviol.push(serde_json::json!({"property":"C19","what":format!("contention: {} bytes were granted at the same time, above the limit {} ({} threads each asking for more than half of the limit)", w, limit, n)})); }
+        a.reset_max();
+        if a.get_max() != 0 { cviol.push(serde_json::json!({"property":"C19","what":format!("contention: usage {} after every block was freed ({} threads)", a.get_max(), n)})); }
     }
     for v in &cviol { nviol += 1; writeln!(orc, "{}", v).unwrap(); }
 
